@@ -109,8 +109,12 @@ def _getitem_type(v, var, w, op):
     return v[['a', 1.5, None, (1, 2), b'1'][var % 5]]
 
 
-_BAD_SPECS = ['djhfjd', '^+10', '^ 10', 'x10', '<5>', '5<', '10.5', '<<<', '>>5x', 'a-b>3', 'ab5', '5e',
-              ':bogus', '<5:nope', ':rgb()', '>3:-1', 'éé', '5:bold;;zz', '^7:not a name']
+_BAD_SPECS = ['djhfjd', '^+10', '^ 10', '<5>', '10.5', '<<<', '>>5x', 'a-b>3', 'ab5', '5e',
+              ':bogus', '<5:nope', ':rgb()', '>3:-1', '\u00e9\u00e9', '5:bold;;zz', '^7:not a name']
+
+
+# outside the [fill][+|-][<|>|^][width] grammar of the string-format part (C12's ValueError clause)
+BAD_STRING_SPECS = [x for x in _BAD_SPECS if ':' not in x]
 
 
 def _spec(v, var, w, op):
